@@ -9,6 +9,9 @@ import r_cmp as CMP
 import r_owned as O
 import r_serde as SD
 import r_alloc as AL
+import r_collapse as CO
+import r_bracket as BR
+import r_forward as FW
 
 TRUSTED = [
     "rustc nightly 1.97 type checker, borrow checker and MIR construction (-Zmir-opt-level=0)",
@@ -25,7 +28,19 @@ def c19_freeze(F, R):
     A.r_freeze(F, R, cheapest=True)
 
 
+def only(rule, names):
+    def f(F, R):
+        rule(F, R, only=names)
+    f.serde_only = getattr(rule, "serde_only", False)
+    return f
+
+
+CS_ONLY = {"CollapseSequence"}
+
 PROPS = {
+    "C20": {"rules": [FW.r_forward, FW.r_sibling, FW.r_pushstorage], "explanation": "x", "decided": [], "not_decided": []},
+    "C01": {"rules": [BR.r_bracket, BR.r_reader_writer, BR.r_fanout, BR.r_columns], "explanation": "x", "decided": [], "not_decided": []},
+    "C11": {"rules": [CO.r_collapse_push, only(L.r_reset, CS_ONLY), only(L.r_fresh, CS_ONLY), only(L.r_clone, CS_ONLY), only(SD.r_serde, CS_ONLY)], "explanation": "x", "decided": [], "not_decided": []},
     "C17": {"rules": [AL.r_cover_merge, AL.r_cover_reserve, AL.r_reserve_items_agree, AL.r_noalloc], "explanation": "x", "decided": [], "not_decided": []},
     "C16": {"rules": [SD.r_serde], "explanation": "x", "decided": [], "not_decided": []},
     "C14": {"rules": [O.r_onto, O.r_owned_conversions, O.r_reborrow], "explanation": "x", "decided": [], "not_decided": []},
